@@ -87,7 +87,7 @@ def build(rng, facts, name):
             w = rng.choice(wpool)
             for r in ("k", "t"): b.kadd(r, v, w)
         b.emit("kpobs PV", ("same", jp))
-        b.emit("ktoproto PW k", "ok"); j0 = b.emit("kobs k"); jf = b.emit("kforeach k 0"); b.emit("kpscale PW %s" % f2h(rng.choice([2.0, 0.5, 0.0])), "ok")
+        b.emit("ktoproto PW k", "ok"); j0 = b.emit("kobs k"); jf = b.emit("kforeach k 0"); b.emit("kpscale PW %s" % f2h(rng.choice([2.0, 0.5, 0.0])), "ok"); b.emit("kpobs PW")      # the edited message itself is compared with the model's (Wire/ProtoEdit.v)
         b.emit("kobs k", ("same", j0)); b.emit("kforeach k 0", ("same", jf)); jt = b.emit("kobs t"); b.emit("kobs k", ("same", jt))
     # a paginated store copied when its buffer of unit entries is exactly full (or not), then the original is cleared and refilled: the copy keeps its content
     if rng.random() < 0.35:
